@@ -3,7 +3,7 @@
 import json, os, sys
 HERE = os.path.dirname(os.path.dirname(os.path.abspath(__file__)))
 m = json.load(open(os.path.join(HERE, "seeded", "matrix.json")))
-print("| mutant | what it needs to manifest | own check | also caught by | first violation key of the own check |")
+print("| mutant | what it needs to manifest | own check | also caught by (of the checks run) | first violation key of the own check |")
 print("|---|---|---|---|---|")
 missed = []
 for mid in sorted(m):
@@ -19,7 +19,7 @@ for mid in sorted(m):
     need = meta["needs_to_manifest"]
     if len(need) > 150:
         need = need[:147] + "..."
-    print("| %s | %s | %s | %s%s | `%s` |" % (mid, need.replace("|", "/"), ownres, ", ".join(c for c in caught if c != own) or "-",
+    print("| %s | %s | %s | %s (%d run)%s | `%s` |" % (mid, need.replace("|", "/"), ownres, ", ".join(c for c in caught if c != own) or "-", len(row),
                                            (" (inconclusive: %s)" % ", ".join(inc)) if inc else "", key[:70]))
 print()
 print("own-check detection: %d / %d%s" % (len(m) - len(missed), len(m), (" - not caught: " + ", ".join(missed)) if missed else ""))
